@@ -16,9 +16,9 @@ use std::{collections::BTreeMap, collections::HashSet, fs, io::Write as _, path:
 
 use common::{Case, Rng};
 
-fn families() -> Vec<(&'static str, fn(&mut Rng) -> Case)> {
+fn families() -> Vec<(&'static str, fn(&mut Rng, usize) -> Case)> {
     vec![
-        ("tag.eval", fam_filter::gen_tag_eval as fn(&mut Rng) -> Case),
+        ("tag.eval", fam_filter::gen_tag_eval as fn(&mut Rng, usize) -> Case),
         ("filter.feature", fam_filter::gen_filter),
         ("retry.resolve", fam_retry::gen_resolve),
         ("match.find", fam_match::gen_find),
@@ -54,7 +54,7 @@ fn main() {
     let mut samples: Vec<String> = Vec::new();
     for i in 0..count {
         let mut r = rng.fork();
-        let c = genf(&mut r);
+        let c = genf(&mut r, i);
         for (rl, il) in c.req.lines().zip(c.imp.lines()) {
             writeln!(req, "{rl}").unwrap();
             writeln!(imp, "{il}").unwrap();
